@@ -19,9 +19,25 @@ pub fn hypergeometric_pmf(size: u64, successes: u64, draws: u64, observed: u64) 
     if observed > draws {
         0.0
     } else {
-        binomial(successes, observed) * binomial(size - successes, draws - observed)
-            / binomial(size, draws)
+        let numerator =
+            binomial(successes, observed) * binomial(size - successes, draws - observed);
+        let denominator = binomial(size, draws);
+
+        if numerator.is_finite() && denominator.is_finite() {
+            numerator / denominator
+        } else if observed > successes || draws - observed > size - successes {
+            0.0
+        } else {
+            // The binomial coefficients overflow for large sizes, so work in log-space instead
+            (ln_binomial(successes, observed) + ln_binomial(size - successes, draws - observed)
+                - ln_binomial(size, draws))
+            .exp()
+        }
     }
+}
+
+fn ln_binomial(n: u64, k: u64) -> f64 {
+    ln_factorial(n) - ln_factorial(k) - ln_factorial(n - k)
 }
 
 /// Returns the binomial coefficient.
